@@ -478,7 +478,11 @@ func run(r *Rng, tier string, n int) {
 			}
 			return o
 		}
+		rep := func(b byte, n int) []byte { return bytes.Repeat([]byte{b}, n) }
 		groups := [][]pv{
+			// values at the upper bounds of their encodings
+			{{"alpn-id-254", par(1, append([]byte{254}, rep('a', 254)...)...)}, {"alpn-id-255", par(1, append([]byte{255}, rep('a', 255)...)...)}, {"alpn-two-ids-255", par(1, append(append([]byte{255}, rep('a', 255)...), append([]byte{255}, rep('b', 255)...)...)...)}},
+			{{"ipv4hint-64", par(4, rep(9, 256)...)}, {"ipv6hint-16", par(6, rep(0x20, 256)...)}, {"ech-1000", par(5, rep(7, 1000)...)}, {"dohpath-300", par(7, rep('/', 300)...)}, {"local-2000", par(65280, rep(1, 2000)...)}, {"mandatory-many", cat(par(0, 0, 1, 0, 3, 0, 4, 0, 5, 0, 6), par(1, 2, 'h', '2'), par(3, 1, 187), par(4, 1, 2, 3, 4), par(5, 1), par(6, rep(0x20, 16)...))}},
 			{{"alpn-canonical", par(1, 2, 'h', '2')}, {"alpn-empty-id", par(1, 0)}, {"alpn-empty-id-then-h2", par(1, 0, 2, 'h', '2')}, {"alpn-h2-then-empty-id", par(1, 2, 'h', '2', 0)}, {"alpn-empty-value", par(1)}},
 			{{"mandatory-sorted", cat(par(0, 0, 1, 0, 3), par(1, 2, 'h', '2'), par(3, 1, 187))}, {"mandatory-unsorted", cat(par(0, 0, 3, 0, 1), par(1, 2, 'h', '2'), par(3, 1, 187))}, {"mandatory-repeated", cat(par(0, 0, 1, 0, 1), par(1, 2, 'h', '2'), par(3, 1, 187))}},
 			{{"port", par(3, 1, 187)}, {"port-short", par(3, 1)}, {"port-long", par(3, 1, 187, 0)}},
@@ -511,7 +515,7 @@ func run(r *Rng, tier string, n int) {
 							Viol("C20/wire/svcb/"+v.name+"/not-duplicate-of-copy", "a "+dns.TypeToString[typ]+" record taken from the wire is not a duplicate of its copy: "+got, map[string]string{"rdata": Hx(rd)})
 						}
 					}
-					buf := make([]byte, 512)
+					buf := make([]byte, 8192)
 					if _, err := dns.PackRR(rr, buf, 0, nil, false); err != nil {
 						Viol("C20/wire/svcb/"+v.name+"/not-packable", "a "+dns.TypeToString[typ]+" record taken from the wire cannot be packed again: "+err.Error(), map[string]string{"rdata": Hx(rd)})
 					}
